@@ -10,6 +10,10 @@ import time
 from . import specexec as S
 
 GUID = b"258EAFA5-E914-47DA-95CA-C5AB0DC85B11"
+# patience factor for the waits that only bound how long the harness waits for the client (not the ones that define a scenario's
+# timing): a scenario that fails is repeated with more patience, and only a failure that survives every attempt is reported -
+# a loaded machine must not turn into an alarm
+PATIENCE = [1.0]
 
 
 class Peer:
@@ -97,7 +101,7 @@ class Peer:
                 elif act[0] == "sleep":
                     pump(act[1])
                 elif act[0] == "until_close":
-                    pump(act[1], until_close=True)
+                    pump(act[1] * PATIENCE[0], until_close=True)
                 elif act[0] == "eof":
                     break
             pump(0.05)
@@ -163,7 +167,7 @@ def run_app(scripts, callbacks=("on_open", "on_message", "on_data", "on_error", 
                     done.append(("raised", type(ex).__name__))
             th = threading.Thread(target=target, daemon=True)
             th.start()
-            th.join(timeout)
+            th.join(timeout * PATIENCE[0])
             if th.is_alive():
                 app.keep_running = False
                 try:
@@ -175,6 +179,9 @@ def run_app(scripts, callbacks=("on_open", "on_message", "on_data", "on_error", 
             else:
                 results.append(done[0] if done else None)
     finally:
+        # let the server threads drain what the client wrote last (its close frame) before the records are inspected
+        for sth in list(peer.threads):
+            sth.join(1.5 * PATIENCE[0])
         peer.close()
     return dict(trace=trace, results=results, peer=peer, elapsed=time.time() - t0, app=app)
 
@@ -358,10 +365,17 @@ BY_PROPERTY = {
 def run_property(pid, which=None):
     out = []
     for n in (which or BY_PROPERTY[pid]):
-        try:
-            probs = SCENARIOS[n]()
-        except Exception as ex:  # noqa
-            probs = [f"{n}: harness error {type(ex).__name__}: {ex}"]
+        probs = []
+        for patience in (1.0, 3.0, 8.0):
+            PATIENCE[0] = patience
+            try:
+                probs = SCENARIOS[n]()
+            except Exception as ex:  # noqa
+                probs = [f"{n}: harness error {type(ex).__name__}: {ex}"]
+            finally:
+                PATIENCE[0] = 1.0
+            if not probs:
+                break
         out.append((n, probs))
     return out
 
@@ -379,7 +393,14 @@ def bounded(pid):
 
 
 def replay_witness(w):
-    return bool(SCENARIOS[w["scenario"]](**w.get("args", {})))
+    for patience in (1.0, 3.0, 8.0):
+        PATIENCE[0] = patience
+        try:
+            if not SCENARIOS[w["scenario"]](**w.get("args", {})):
+                return False
+        finally:
+            PATIENCE[0] = 1.0
+    return True
 
 
 if __name__ == "__main__":
